@@ -475,7 +475,7 @@ func incrementNumericStatStmt(tx *txn) (func(stat string, delta int64, timestamp
 // resulting value would be negative, the function panics. This function should
 // be used when lots of stats need to be batched together.
 func incrementCurrencyStatStmt(tx *txn) (func(stat string, delta types.Currency, negative bool, timestamp time.Time) error, func() error, error) {
-	getStatStmt, err := tx.Prepare(`SELECT stat_value FROM host_stats WHERE stat=$1 AND date_created<=$2 ORDER BY date_created DESC LIMIT 1`)
+	getStatStmt, err := tx.Prepare(`SELECT stat_value, date_created FROM host_stats WHERE stat=$1 ORDER BY date_created DESC LIMIT 1`)
 	if err != nil {
 		return nil, nil, fmt.Errorf("failed to prepare get stat statement: %w", err)
 	}
@@ -491,8 +491,14 @@ func incrementCurrencyStatStmt(tx *txn) (func(stat string, delta types.Currency,
 			}
 			timestamp = timestamp.Truncate(statInterval)
 			var current types.Currency
-			if err := getStatStmt.QueryRow(stat, encode(timestamp)).Scan(decode(&current)); err != nil && !errors.Is(err, sql.ErrNoRows) {
+			var newest time.Time
+			if err := getStatStmt.QueryRow(stat).Scan(decode(&current), decode(&newest)); err != nil && !errors.Is(err, sql.ErrNoRows) {
 				return fmt.Errorf("failed to query existing value: %w", err)
+			} else if newest.After(timestamp) {
+				// the delta belongs to the current value: never write behind
+				// the newest row (block timestamps are not monotonic across
+				// reverts)
+				timestamp = newest
 			}
 
 			var value types.Currency
